@@ -1030,20 +1030,15 @@ class Visitor(ast.NodeVisitor):
         assert len(node.args) == 1
         assert isinstance(node.args[0], ast.GeneratorExp)
 
-        # Try the happy path first
-
         # Please see "NOTE ABOUT PLACEHOLDERS AND RE-COMPUTATION"
         recomputed_arg = self.visit(node=node.args[0])
         if recomputed_arg is PLACEHOLDER:
             return PLACEHOLDER
 
-        result = func(*(self.visit(node=node.args[0]),))
-        if result:
-            return result
-
-        # The all quantifier has not been satisfied. We need to re-trace it.
-        # To that end, we translate the generator expression to a tracing function and
-        # execute it.
+        # We translate the generator expression to a tracing function and execute it. The function both computes
+        # the quantifier and, if it is not satisfied, gives the first offending item. The items are thus
+        # evaluated only once during the re-computation (calling ``all`` first and tracing afterwards would
+        # evaluate them twice and would exhaust one-shot iterables before the tracing).
 
         generator_exp = node.args[0]
         assert isinstance(generator_exp, ast.GeneratorExp)
@@ -1057,6 +1052,22 @@ class Visitor(ast.NodeVisitor):
             generated_function_name=generated_function_name,
             name_to_value=self._name_to_value,
         )
+
+        # The translation ends with a return of the outcome of the last item, which is not even bound if there
+        # were no items. If no item falsified the quantifier, the quantifier holds.
+        function_node = module_node.body[0]
+        assert isinstance(function_node, (ast.FunctionDef, ast.AsyncFunctionDef))
+        assert isinstance(function_node.body[-1], ast.Return)
+        function_node.body[-1] = ast.Return(
+            ast.Tuple(
+                elts=[
+                    ast.Constant(value=True, kind=None),
+                    ast.Constant(value=None, kind=None),
+                ],
+                ctx=ast.Load(),
+            )
+        )
+        ast.fix_missing_locations(module_node)
 
         # In case you want to debug the generated function at this point,
         # you probably want to use ``astor`` module to generate the source code
@@ -1075,6 +1086,10 @@ class Visitor(ast.NodeVisitor):
         generated_func = module_locals[generated_function_name]
 
         result, inputs = generated_func(**self._name_to_value)
+
+        if inputs is None:
+            # All the items satisfied the quantifier.
+            return True
 
         assert not bool(result), "Expected the unhappy path here"
         assert isinstance(inputs, tuple)
